@@ -236,6 +236,11 @@ def build_tree(rng, root, mtimes):
         files[rel] = (n, mt, tag)
     for rel, (n, mt, tag) in files.items():
         os.utime(os.path.join(root, rel), ns=(mt * 1000, mt * 1000))
+    # a file reached through a symbolic link: its record states the size and the modification time of the CONTENT that is hashed
+    target = next((r for r, (n, _, _) in files.items() if n not in (0, 1) and os.path.dirname(r) == "sub"), None)
+    if target is not None:
+        os.symlink(os.path.basename(target), os.path.join(root, "sub", "zz_link.bin"))
+        files[os.path.join("sub", "zz_link.bin")] = files[target]
     dirs = {}
     for rel, (mt, tag) in zip([os.path.join("sub", "deeper"), "sub"], dir_m):
         os.utime(os.path.join(root, rel), ns=(mt * 1000, mt * 1000))
